@@ -206,7 +206,7 @@ func c04Publication(c *Ctx, m *Module, pfx string) {
 				continue
 			}
 			nMatch++
-			v := resultStored(ret, 0)
+			v := refine(resultStored(ret, 0), factsAt(ret))
 			okV := false
 			if e, ok := v.(*ssa.Extract); ok && e.Tuple == ssa.Value(walkEntry) && e.Index == 2 {
 				okV = true
